@@ -413,7 +413,7 @@ class TermAlg:
             return ("extmod", "builtins.open")
         if e.id == "print":
             return ("ignore",)  # writes to the terminal: no value, no effect on the records
-        if e.id in ("float", "int", "str", "list", "len", "isinstance", "abs", "enumerate", "sorted", "dict", "type", "all", "any", "zip", "range", "bool", "tuple", "set"):
+        if e.id in ("float", "int", "str", "list", "len", "isinstance", "abs", "enumerate", "sorted", "dict", "type", "all", "any", "zip", "range", "bool", "tuple", "set", "next", "iter", "reversed", "min", "max", "sum"):
             return ("builtin", e.id)
         if e.id in ("product", "reduce", "map"):
             return ("builtin", e.id)
@@ -501,7 +501,7 @@ class TermAlg:
         d = DictV()
         for k, v in zip(e.keys, e.values):
             kk = self.eval(k, env)
-            if not isinstance(kk, Key):
+            if not (isinstance(kk, Key) or (isinstance(kk, tuple) and kk and kk[0] == "str" and "?" not in kk[1])):
                 raise AnalysisError("dict key %s" % norm(k))
             d.d[kk] = self.eval(v, env)
         return d
@@ -828,7 +828,7 @@ class TermAlg:
 
         def add(en):
             k = self.eval(e.key, en)
-            if not isinstance(k, Key):
+            if not (isinstance(k, Key) or (isinstance(k, tuple) and k and k[0] == "str" and "?" not in k[1])):
                 raise AnalysisError("dict comprehension key %s" % norm(e.key))
             res.d[k] = self.eval(e.value, en)
 
@@ -1010,6 +1010,21 @@ class TermAlg:
                     return ("typeof", pos[0])
                 if n == "bool" and len(pos) == 1:
                     return self.truth(pos[0], e)
+                if n == "next" and pos:
+                    items_ = self.iterate(pos[0], e)
+                    if items_:
+                        return items_[0]
+                    if len(pos) > 1:
+                        return pos[1]
+                    raise Raised("StopIteration")
+                if n in ("iter", "tuple", "reversed", "set") and len(pos) == 1:
+                    items_ = list(self.iterate(pos[0], e))
+                    return ListV(items_[::-1] if n == "reversed" else items_)
+                if n == "sum" and pos:
+                    acc_ = pos[1] if len(pos) > 1 else num(0)
+                    for x_ in self.iterate(pos[0], e):
+                        acc_ = self.arith(ast.Add(), acc_, x_, e)
+                    return acc_
                 if n in ("all", "any"):
                     vals = [self.truth(v) for v in self.iterate(pos[0], e)]
                     return all(vals) if n == "all" else any(vals)
